@@ -103,6 +103,16 @@ func runC32(c *Ctx) {
 	}
 	sort.Strings(outside)
 	c.Floor(nil, "counter updates of ShardedMap", nAdd, 1)
+	// the counter is bookkeeping for Len() only: no operation decides anything by reading it (it lags
+	// behind the shards while an insert is in flight)
+	nLoad := 0
+	for _, fn := range c.FuncsWithPrefix("util.(*ShardedMap[K,V]).") {
+		for _, in := range c.CallsD(fn, "atomic.LoadInt64(&l.length)") {
+			nLoad++
+			c.Report(fn, "the key counter is read only by Len()", in.Pos(), c.FuncKey(fn) == "util.(*ShardedMap[K,V]).Len", "")
+		}
+	}
+	c.Floor(nil, "reads of the key counter", nLoad, 1)
 	if anchor := c.Need("util.(*ShardedMap[K,V]).Empty"); anchor != nil {
 		resets := c.CallsD(anchor, "atomic.StoreInt64(&l.length, 0)")
 		c.Held(anchor, nil, "Empty resets the key counter with the map lock held exclusively", resets, 1, "&l.l", LW)
